@@ -320,26 +320,46 @@ def regenerate(prop, mod, ctx):
             except Exception:
                 continue
     mine = None
+    # corr/_tr.py: functions re-derived by the statement-level translator (EXTRA[Cxx](ctx) -> files), merged into the
+    # property's generated files; a translation failure is handled exactly like a failing `extract`
+    try:
+        tr = importlib.import_module("corr._tr")
+        tr_extra, tr_owned = dict(tr.EXTRA), dict(getattr(tr, "GENERATED", {}))
+    except Exception as e:
+        tr_extra, tr_owned = {}, {}
+        err = "corr/_tr.py cannot be loaded: %s: %s" % (type(e).__name__, e)
+    jobs = []
     for name, m in mods:
-        extract = getattr(m, "extract", None)
-        if extract is None:
-            continue
+        if getattr(m, "extract", None) is not None:
+            jobs.append((name, m.extract, set(getattr(m, "GENERATED_FILES", []))))
+        if name in tr_extra:
+            jobs.append((name, tr_extra[name], set(tr_owned.get(name, []))))
+    for name, extract, owned in jobs:
         try:
             files = extract(ctx if name == prop else Ctx(name, ctx.tier, ctx.seed)) or {}
         except Exception as e:  # source no longer has the expected shape
+            msg = "%s: %s" % (type(e).__name__, e)
             if name == prop:
-                err = "extraction failed: %s: %s" % (type(e).__name__, e)
+                err = (err + "; " if err else "") + "extraction failed: " + msg
             else:
                 if mine is None:
                     mine = {str(p.relative_to(LEAN)) for p in lean_files_of(prop).values()}
-                owned = set(getattr(m, "GENERATED_FILES", []))
                 if owned & mine:
-                    err = "extraction for %s failed (its generated files are imported here): %s: %s" % (name, type(e).__name__, e)
+                    err = (err + "; " if err else "") + "extraction for %s failed (its generated files are imported here): %s" % (name, msg)
             continue
         for rel, content in files.items():
-            if write_if_changed(LEAN / rel, content):
+            if write_if_changed(LEAN / rel, content) and rel not in changed:
                 changed.append(rel)
     return changed, err
+
+
+def _tr_trusted(prop):
+    """additions to the trusted base from corr/_tr.py (translated functions of this property)"""
+    try:
+        tr = importlib.import_module("corr._tr")
+        return list(tr.TRUSTED) + list(getattr(tr, "TRUSTED_PER", {}).get(prop, [])) if prop in tr.EXTRA else []
+    except Exception:
+        return []
 
 
 def build(prop):
@@ -551,7 +571,7 @@ def run_check(prop, tier, seed, replay=None):
             "discharged": discharged,
             "checker_cmd": "cd lean && lake build PyGqlModel.Props.%s drv_%s && lake env lean .lake/audit/Audit_%s.lean  (#print axioms)%s"
                            % (prop, prop, prop, " && lake env leanchecker PyGqlModel.Props.%s" % prop if tier == "thorough" else ""),
-            "trusted_base": TRUSTED_BASE + getattr(mod, "TRUSTED", []),
+            "trusted_base": TRUSTED_BASE + getattr(mod, "TRUSTED", []) + _tr_trusted(prop),
             "theorems": ok_names,
             "theorems_partial": [n for n in ok_names if n.endswith("_partial")],
             "axioms_used": axioms_used,
